@@ -76,6 +76,18 @@ def install(eng, c, runner):
         a, b = args
         return s_bool(simp(same_value_term(e.box(a), e.box(b))))
 
+    def f_same_elements(e, args, kw):
+        def seq(v):
+            v = e.refine(v)
+            if v.kind == "seq":
+                return v.t
+            if v.kind == "tuple":
+                return e.seq_of(v.items)
+            if v.kind == "ref" and e.static_cls(v) in ("list", "tuple"):
+                return e.p.hread("list.items", v.ref)
+            raise Unsupported("same_elements of a non-list")
+        return s_bool(simp(seq(args[0]) == seq(args[1])))
+
     def f_same_ref(e, args, kw):
         a, b = args
         return s_bool(simp(e.box(a) == e.box(b)))
@@ -186,7 +198,7 @@ def install(eng, c, runner):
         return s_bool(simp(M.is_js_value(e.box(args[0]))))
 
     ex.update(assume=f_assume, check=f_check, cover=f_cover, outcome=f_outcome, es_outcome=f_es_outcome,
-              same_value=f_same_value, same_ref=f_same_ref, same_outcome=f_same_outcome, heap_snapshot=f_heap_snapshot,
+              same_value=f_same_value, same_ref=f_same_ref, same_elements=f_same_elements, same_outcome=f_same_outcome, heap_snapshot=f_heap_snapshot,
               heap_unchanged=f_heap_unchanged, dict_after_store=f_dict_after_store, dict_after_remove=f_dict_after_remove, exc_in=f_exc_in, is_number=f_is_number,
               fresh=f_fresh, ghost_set=f_ghost_set, ghost_get=f_ghost_get, is_js_value=f_is_js_value)
     for k, v in list(ex.items()):
